@@ -32,6 +32,9 @@ def check(ix, rep):
     # 3. construction and update visitors are exhaustive
     cells = exh.exh_monitor(ix, rep, on)
     rep.floor('dispatch cells of the online construction visitor', cells, 39)
+    from sa.rules import step as _step2
+    nbe = _step2.check_buffer_every_path(ix, rep, M.operation_classes(ix, 'discrete'), 'discrete-online')
+    rep.floor('ring buffers of the discrete-time online operations', nbe, 4)
     nss = exh.check_store_sites(ix, rep, on)
     rep.floor('stores into the operator table', nss, 28)
     exh.update_visitor_leaves(ix, rep, on)
